@@ -1,6 +1,7 @@
 package engine
 
 import (
+	"os"
 	"fmt"
 	"go/types"
 	"sort"
@@ -612,6 +613,9 @@ func (r *Reg) Preamble() string {
 		fmt.Fprintf(&b, "(assert (forall ((a %s) (k %s)) (! (= (%s (store a k false)) (ite (select a k) (- (%s a) 1) (%s a))) :pattern ((%s (store a k false))))))\n", as, k, c, c, c, c)
 		fmt.Fprintf(&b, "(assert (= (%s ((as const %s) false)) 0))\n", c, as)
 		fmt.Fprintf(&b, "(assert (forall ((a %s)) (! (=> (= (%s a) 0) (= a ((as const %s) false))) :pattern ((%s a)))))\n", as, c, as, c)
+		if os.Getenv("GOVC_NO_CARDW") != "" {
+			continue
+		}
 		// a set with two or more elements has two distinct members (witness functions)
 		fmt.Fprintf(&b, "(declare-fun %s_w1 (%s) %s)\n(declare-fun %s_w2 (%s) %s)\n", c, as, k, c, as, k)
 		fmt.Fprintf(&b, "(assert (forall ((a %s)) (! (=> (>= (%s a) 2) (and (select a (%s_w1 a)) (select a (%s_w2 a)) (not (= (%s_w1 a) (%s_w2 a))))) :pattern ((%s a)))))\n", as, c, c, c, c, c, c)
